@@ -316,8 +316,8 @@ class Check:
         self.write_evidence(len(new_viol), [k for k in known_hit])
         for ln in lines:
             print(ln)
-        for b in self.broken:
-            print(f"# broken obligation: {b['obligation']}", file=sys.stderr)
+        for ob in sorted({b['obligation'] for b in self.broken}):
+            print(f"# broken obligation: {ob}", file=sys.stderr)
         sys.stdout.flush()
         return exit_code
 
